@@ -118,7 +118,7 @@ func shortFile(f string) string {
 }
 
 func (it *Interp) throwRuntime(msg string) {
-	panic(goPanic{val: it.runtimeError(msg), msg: "runtime error: " + msg})
+	panic(goPanic{val: it.runtimeError(msg), msg: "runtime error: " + msg + it.where()})
 }
 
 func (it *Interp) runtimeError(msg string) Value {
@@ -827,7 +827,7 @@ func (it *Interp) typeAssert(x *ssa.TypeAssert, v Value) Value {
 	}
 	if !ok {
 		msg := fmt.Sprintf("interface conversion: interface is %v, not %s", iv.T, at)
-		panic(goPanic{val: it.runtimeError(msg), msg: "runtime error: " + msg})
+		panic(goPanic{val: it.runtimeError(msg), msg: "runtime error: " + msg + it.where()})
 	}
 	return res
 }
